@@ -576,6 +576,9 @@ impl TypeChecker {
                     return None;
                 }
 
+                // A bound that is present but whose value is not known at compile time (e.g. `1 + 1`) must not be
+                // treated as an omitted bound: then the slice has no compile-time value either.
+                let mut bounds_known = true;
                 let mut start_val = None;
                 if let Some(s) = &slice.start {
                     let ty = self.eval_const_expr(s, None, stack, decl_span)?;
@@ -587,6 +590,7 @@ impl TypeChecker {
                         return None;
                     }
                     start_val = ty.value.as_ref().and_then(const_int);
+                    bounds_known &= start_val.is_some();
                 }
                 let mut end_val = None;
                 if let Some(e) = &slice.end {
@@ -599,6 +603,7 @@ impl TypeChecker {
                         return None;
                     }
                     end_val = ty.value.as_ref().and_then(const_int);
+                    bounds_known &= end_val.is_some();
                 }
                 let mut step_val = None;
                 if let Some(st) = &slice.step {
@@ -611,10 +616,11 @@ impl TypeChecker {
                         return None;
                     }
                     step_val = ty.value.as_ref().and_then(const_int);
+                    bounds_known &= step_val.is_some();
                 }
 
                 let mut value = None;
-                if let Some(base_str) = b.value.as_ref().and_then(const_str) {
+                if let Some(base_str) = b.value.as_ref().and_then(const_str).filter(|_| bounds_known) {
                     match strings::str_slice(base_str, start_val, end_val, step_val) {
                         Ok(out) => value = Some(ConstValue::FrozenStr(out)),
                         Err(StringAccessError::SliceStepZero) => {
